@@ -1,6 +1,211 @@
-//! C10 — not implemented yet.
+//! C10 — viewport projection, unprojection and the picking matrix are consistent.
+
+use vek::geom::repr_c::Rect;
+use vek::mat::repr_c::column_major as cm;
+use vek::mat::repr_c::row_major as rm;
+use vek::vec::repr_c::Vec2;
+use vkit::gens;
+use vkit::refmath as rf;
+use vkit::vk::{self, MatN};
 use vkit::*;
 
+struct Setup<S> {
+    mv: [[S; 4]; 4],
+    proj: [[S; 4]; 4],
+    vp: [S; 4], // x, y, w, h
+    structured: bool,
+}
+
+fn gen_viewport<S: Dom>(t: &mut Tape, cx: &mut Cx) -> [S; 4] {
+    let x = S::q(t.int(-50, 200), t.pick(&[1i64, 1, 2]));
+    let y = S::q(t.int(-50, 200), t.pick(&[1i64, 1, 4]));
+    let w = S::q(t.int(1, 2000), t.pick(&[1i64, 1, 3]));
+    let mut h = S::q(t.int(1, 1500), t.pick(&[1i64, 1, 2]));
+    if t.chance(24) {
+        cx.label("negative-viewport-height");
+        h = -h;
+    }
+    [x, y, w, h]
+}
+
+fn gen_setup<S: Dom>(t: &mut Tape, cx: &mut Cx) -> Setup<S> {
+    let vp = gen_viewport::<S>(t, cx);
+    if t.bool() {
+        // structured: rigid model-view, perspective or orthographic projection (built with vek's constructors; their
+        // own correctness is C08's business — here they are just invertible matrices of the usual shape)
+        cx.label("structured");
+        let mv = gens::rigid4::<S>(t);
+        let n = S::q(t.int(1, 9), t.pick(&[1i64, 2, 10]));
+        let f = n * S::q(t.int(2, 20), 1);
+        let proj = match t.below(4) {
+            0 => cm::Mat4::<S>::perspective_rh_no(S::angle_0_pi(t), S::q(t.int(1, 16), t.int(1, 9)), n, f).to_arr(),
+            1 => cm::Mat4::<S>::perspective_lh_zo(S::angle_0_pi(t), S::q(t.int(1, 16), t.int(1, 9)), n, f).to_arr(),
+            2 => cm::Mat4::<S>::orthographic_rh_no(vek::geom::FrustumPlanes { left: S::i(-t.int(1, 9)), right: S::i(t.int(1, 9)), bottom: S::i(-t.int(1, 9)), top: S::i(t.int(1, 9)), near: n, far: f }).to_arr(),
+            _ => cm::Mat4::<S>::frustum_rh_zo(vek::geom::FrustumPlanes { left: S::i(-t.int(1, 9)), right: S::i(t.int(1, 5)), bottom: S::i(-t.int(1, 3)), top: S::i(t.int(1, 9)), near: n, far: f }).to_arr(),
+        };
+        Setup { mv, proj, vp, structured: true }
+    } else {
+        cx.label("arbitrary-invertible");
+        let g = |t: &mut Tape| {
+            let mut m = [[S::zero(); 4]; 4];
+            for i in 0..4 {
+                for j in 0..4 {
+                    m[i][j] = if S::EXACT { S::small(t, 6) } else { S::i(t.int(-4, 4)) };
+                }
+            }
+            m
+        };
+        Setup { mv: g(t), proj: g(t), vp, structured: false }
+    }
+}
+
+/// Reference projection (GLM project semantics written from the property statement).
+fn project_ref<S: Dom>(s: &Setup<S>, p: &[S; 3], zo: bool) -> Option<[S; 3]> {
+    let clip = rf::matvec(&s.proj, &rf::matvec(&s.mv, &[p[0], p[1], p[2], S::one()]));
+    if clip[3].is_zero() || (!S::EXACT && clip[3].f().abs() < 0.05) {
+        return None;
+    }
+    let ndc = [clip[0] / clip[3], clip[1] / clip[3], clip[2] / clip[3]];
+    let two = S::i(2);
+    let x = s.vp[0] + s.vp[2] * (ndc[0] + S::one()) / two;
+    let y = s.vp[1] + s.vp[3] * (ndc[1] + S::one()) / two;
+    let z = if zo { ndc[2] } else { (ndc[2] + S::one()) / two };
+    Some([x, y, z])
+}
+
+fn viewport<S: Dom>(t: &mut Tape, cx: &mut Cx) -> CaseResult {
+    let s = gen_setup::<S>(t, cx);
+    let pm = rf::matmul(&s.proj, &s.mv);
+    let d = rf::det(&pm);
+    if d.is_zero() || (!S::EXACT && d.f().abs() < 0.5 && !s.structured) {
+        discard!("precondition:singular-or-ill-conditioned");
+    }
+    let p: [S; 3] = if s.structured {
+        // a point roughly in front of the camera: apply the inverse rigid transform to a point with negative/positive z
+        let local = [S::any(t, 4), S::any(t, 4), S::any(t, 9)];
+        let inv = rf::inverse(&s.mv).unwrap();
+        let w = rf::matvec(&inv, &[local[0], local[1], local[2], S::one()]);
+        [w[0], w[1], w[2]]
+    } else {
+        vk::gen_vec(t, 9)
+    };
+    let (want_no, want_zo) = match (project_ref(&s, &p, false), project_ref(&s, &p, true)) {
+        (Some(a), Some(b)) => (a, b),
+        _ => discard!("precondition:clip-w=0"),
+    };
+    let clipw = rf::matvec(&pm, &[p[0], p[1], p[2], S::one()])[3];
+    let vp_centre_off = !s.vp[0].is_zero() && !s.vp[1].is_zero() && s.vp[2] != s.vp[3];
+    cx.set_nontrivial(vp_centre_off && clipw != S::one() && p.iter().all(|x| !x.is_zero()));
+    sample!(cx, "{} modelview={:?} proj={:?} viewport(x,y,w,h)={:?} p={:?} clip w={:?}", S::NAME, s.mv, s.proj, s.vp, p, clipw);
+    let rect = Rect { x: s.vp[0], y: s.vp[1], w: s.vp[2], h: s.vp[3] };
+    // conditioning of the unprojection in floats: |inverse| * |matrix|, and 1/|w|
+    let inv = rf::inverse(&pm).unwrap();
+    let cond = (vk::mat_max(&pm).max(1.0) * vk::mat_max(&inv).max(1.0) * 16.0).max(1.0);
+    let vsc = s.vp.iter().fold(1.0f64, |m, x| m.max(x.f().abs()));
+    let psc = vk::vec_max(&p).max(1.0) * vk::mat_max(&pm).max(1.0) * 8.0 / clipw.f().abs().min(1.0);
+    let kf = 4096.0;
+    macro_rules! layout {
+        ($l:ident, $n:expr) => {{
+            let (mv, pr) = ($l::Mat4::<S>::from_arr(&s.mv), $l::Mat4::<S>::from_arr(&s.proj));
+            let got_no = vk::a3(&$l::Mat4::<S>::world_to_viewport_no(vk::v3(&p), mv, pr, rect));
+            let got_zo = vk::a3(&$l::Mat4::<S>::world_to_viewport_zo(vk::v3(&p), mv, pr, rect));
+            check_vec!(cx, S, got_no, want_no, vsc * psc, kf, "{} world_to_viewport_no vs reference projection", $n);
+            check_vec!(cx, S, got_zo, want_zo, vsc * psc, kf, "{} world_to_viewport_zo vs reference projection", $n);
+            // unprojecting the projection returns the original point
+            let back_no = vk::a3(&$l::Mat4::<S>::viewport_to_world_no(vk::v3(&got_no), mv, pr, rect));
+            let back_zo = vk::a3(&$l::Mat4::<S>::viewport_to_world_zo(vk::v3(&got_zo), mv, pr, rect));
+            let rsc = vk::vec_max(&p).max(1.0) * cond * cond * psc;
+            check_vec!(cx, S, back_no, p, rsc, kf, "{} viewport_to_world_no(world_to_viewport_no(p)) = p", $n);
+            check_vec!(cx, S, back_zo, p, rsc, kf, "{} viewport_to_world_zo(world_to_viewport_zo(p)) = p", $n);
+        }};
+    }
+    layout!(rm, "row-major");
+    layout!(cm, "col-major");
+    // the converse round trip (exact domains only: a window point with depth, unprojected then projected)
+    if S::EXACT {
+        let win = [s.vp[0] + s.vp[2] * S::q(t.int(0, 8), 8), s.vp[1] + s.vp[3] * S::q(t.int(0, 8), 8), S::q(t.int(1, 7), 8)];
+        let (mv, pr) = (cm::Mat4::<S>::from_arr(&s.mv), cm::Mat4::<S>::from_arr(&s.proj));
+        // the unprojected homogeneous point must have w != 0, and projecting it back must not hit clip w = 0
+        let two = S::i(2);
+        for zo in [false, true] {
+            let ndc = [(win[0] - s.vp[0]) / s.vp[2] * two - S::one(), (win[1] - s.vp[1]) / s.vp[3] * two - S::one(), if zo { win[2] } else { win[2] * two - S::one() }];
+            let obj = rf::matvec(&inv, &[ndc[0], ndc[1], ndc[2], S::one()]);
+            if obj[3].is_zero() {
+                continue;
+            }
+            let world = if zo { cm::Mat4::<S>::viewport_to_world_zo(vk::v3(&win), mv, pr, rect) } else { cm::Mat4::<S>::viewport_to_world_no(vk::v3(&win), mv, pr, rect) };
+            check_eq!(cx, vk::a3(&world), [obj[0] / obj[3], obj[1] / obj[3], obj[2] / obj[3]], "viewport_to_world_{} vs reference unprojection", if zo { "zo" } else { "no" });
+            let again = if zo { cm::Mat4::<S>::world_to_viewport_zo(world, mv, pr, rect) } else { cm::Mat4::<S>::world_to_viewport_no(world, mv, pr, rect) };
+            check_eq!(cx, vk::a3(&again), win, "world_to_viewport_{0}(viewport_to_world_{0}(win)) = win", if zo { "zo" } else { "no" });
+        }
+    }
+    Ok(())
+}
+
+fn picking<S: Dom>(t: &mut Tape, cx: &mut Cx) -> CaseResult {
+    let vp = gen_viewport::<S>(t, cx);
+    let centre = [vp[0] + vp[2] * S::q(t.int(-4, 12), 8), vp[1] + vp[3] * S::q(t.int(-4, 12), 8)];
+    let size = [S::q(t.int(1, 400), t.pick(&[1i64, 1, 2, 3])), S::q(t.int(1, 300), t.pick(&[1i64, 1, 2, 5]))];
+    let two = S::i(2);
+    let rect = Rect { x: vp[0], y: vp[1], w: vp[2], h: vp[3] };
+    let vc = [vp[0] + vp[2] / two, vp[1] + vp[3] / two];
+    cx.set_nontrivial(centre[0] != vc[0] && centre[1] != vc[1] && vp[2] != vp[3] && size[0] != size[1]);
+    sample!(cx, "{} viewport(x,y,w,h)={:?} centre={:?} size={:?}", S::NAME, vp, centre, size);
+    let z = S::any(t, 9);
+    let w = S::q(t.int(1, 9), 2);
+    // window coordinate -> clip coordinate of the viewport (ndc, then times w)
+    let to_ndc = |x: S, axis: usize| (x - vp[axis]) / vp[2 + axis] * two - S::one();
+    let sc = 64.0 * vp.iter().fold(1.0f64, |m, x| m.max(x.f().abs())) / size[0].f().min(size[1].f()).min(1.0) * (1.0 + (centre[0].f().abs() + centre[1].f().abs()) / vp[2].f().abs().min(vp[3].f().abs()));
+    macro_rules! layout {
+        ($l:ident, $n:expr) => {{
+            let m = $l::Mat4::<S>::picking_region(Vec2 { x: centre[0], y: centre[1] }, Vec2 { x: size[0], y: size[1] }, rect).to_arr();
+            for (sx, ex) in [(-S::one(), -S::one()), (S::one(), S::one())] {
+                for (sy, ey) in [(-S::one(), -S::one()), (S::one(), S::one())] {
+                    let wx = centre[0] + sx * size[0] / two;
+                    let wy = centre[1] + sy * size[1] / two;
+                    let clip = [to_ndc(wx, 0) * w, to_ndc(wy, 1) * w, z, w];
+                    let out = rf::matvec(&m, &clip);
+                    let ok = vkit::dom::close::<S>(cx, out[0] / out[3], ex, sc, 4096.0) && vkit::dom::close::<S>(cx, out[1] / out[3], ey, sc, 4096.0);
+                    if !ok {
+                        fail!("{} picking_region: window corner ({:?},{:?}) = clip {:?} maps to {:?} (ndc {:?},{:?}), want ({:?},{:?})", $n, wx, wy, clip, out, out[0] / out[3], out[1] / out[3], ex, ey);
+                    }
+                    check_eq!(cx, (out[2], out[3]), (z, w), "{} picking_region leaves z and w untouched", $n);
+                }
+            }
+        }};
+    }
+    layout!(rm, "row-major");
+    layout!(cm, "col-major");
+    // documented panic: size must be > 0
+    let bad = if t.bool() { [S::zero(), size[1]] } else { [size[0], -size[1]] };
+    let r = vkit::catch(|| cm::Mat4::<S>::picking_region(Vec2 { x: centre[0], y: centre[1] }, Vec2 { x: bad[0], y: bad[1] }, rect));
+    check!(cx, r.is_err(), "picking_region must panic for a non-positive size {:?}", bad);
+    Ok(())
+}
+
 pub fn property() -> Property {
-    Property { id: "C10", rule: "", assumptions: &[], checks: Vec::new(), max_discard_frac: 0.2 }
+    let mut checks = Vec::new();
+    macro_rules! tape {
+        ($name:expr, $about:expr, $len:expr, $q:expr, $th:expr, $f:expr) => {
+            checks.push(Check { name: $name, about: $about, kind: Kind::Tape { len: $len, quick: $q, thorough: $th, f: $f } });
+        };
+    }
+    let a = "world_to_viewport_{no,zo} vs a reference projection (clip = P*MV*(p,1), divide, x,y in [-1,1] cover the viewport, depth to [0,1] for _no / unchanged for _zo); viewport_to_world(world_to_viewport(p)) = p; (exact domain) the converse round trip; both layouts";
+    tape!("viewport-rat", a, 160, 20_000, 400_000, viewport::<Rat>);
+    tape!("viewport-f64", a, 192, 40_000, 800_000, viewport::<f64>);
+    let b = "picking_region(centre, size, viewport): the window rectangle centre +- size/2, expressed in clip coordinates of the viewport, has its four corners sent to (-+1, -+1) with z and w untouched; non-positive size panics";
+    tape!("picking-rat", b, 48, 40_000, 800_000, picking::<Rat>);
+    tape!("picking-f64", b, 64, 40_000, 800_000, picking::<f64>);
+    tape!("picking-f32", b, 64, 20_000, 400_000, picking::<f32>);
+    Property {
+        id: "C10",
+        rule: "model-view/projection pairs: structured (rational rigid transform x perspective/orthographic/frustum) and arbitrary invertible matrices with small rational (floats: integer) entries, singular products discarded; viewports at arbitrary offsets with w != h, sometimes negative height; points with clip w != 0; picking centres inside and outside the viewport, anisotropic sizes; non-trivial = viewport offset != 0 and w != h and clip w != 1 / centre != viewport centre; distinct = distinct consumed tape prefix",
+        assumptions: &[
+            "rustc and the proptest runner/shrinker are trusted",
+            "oracle: reference projection / unprojection on plain arrays (vkit::refmath matvec, adjugate inverse)",
+            "float round trips: tolerance scaled by the conditioning |M| |inv M| of proj*modelview and by 1/|clip w|; matrices with |det| < 0.5 (unstructured) or |clip w| < 0.05 are discarded",
+        ],
+        checks,
+        max_discard_frac: 0.3,
+    }
 }
